@@ -251,6 +251,34 @@ def paren(node, toks, top=True, wrap=None):
     raise ValueError(node)
 
 
+def deep_paren(node, toks, top=True):
+    """Fully parenthesised rendering *including* the inside of calls, braces and subscripts (for AST comparison)."""
+    k = node[0]
+    if k == "atom":
+        return node[1]
+    if k == "grp":
+        return "(" + deep_paren(node[1], toks, True) + ")"
+    if k == "brace":
+        return "{" + deep_paren(node[1], toks, True) + "}"
+    if k == "sub":
+        return f"{node[1]} [ {deep_paren(node[2], toks, True)} ]"
+    if k == "call":
+        args = []
+        for a in node[2]:
+            if a[0] == "bin" and a[1] == "=":
+                args.append(deep_paren(a[2], toks, True) + " = " + deep_paren(a[3], toks, False))
+            else:
+                args.append(deep_paren(a, toks, True))
+        return deep_paren(node[1], toks, False) + " ( " + " , ".join(args) + " )"
+    if k == "un":
+        s = node[1] + " " + deep_paren(node[2], toks, False)
+        return s if top else "(" + s + ")"
+    if k == "bin":
+        s = deep_paren(node[2], toks, False) + " " + node[1] + " " + deep_paren(node[3], toks, False)
+        return s if (top or node[1] == "~") else "(" + s + ")"
+    raise ValueError(node)
+
+
 def spans(node, inside=False):
     """Spans of all sub-expressions that may be wrapped in redundant parentheses (not inside calls)."""
     k = node[0]
